@@ -293,6 +293,7 @@ func (s *vfC10Session) wire() string {
 func (s *vfC10Session) ackAndSettle(n int) bool {
 	s.mk++
 	mk := fmt.Sprintf("mk-%d", s.mk)
+	answersBefore := s.obs.countKind("Stream Management: answer")
 	s.acks <- fmt.Sprintf(`<a xmlns="urn:xmpp:sm:3" h="%d"/><message id="%s" from="peer"><body>m</body></message>`, n, mk)
 	return vfWaitUntil(15*time.Second, func() bool {
 		seen := false
@@ -301,7 +302,10 @@ func (s *vfC10Session) ackAndSettle(n int) bool {
 				seen = true
 			}
 		}
-		return seen && !vfRouterBusy(s.c.router)
+		// the acknowledgement itself has come out of the router's bookkeeping (it reaches the catch-all route only after
+		// the retransmission is done): a routing goroutine that was created but has not started yet is invisible in a
+		// goroutine dump, so "nobody is in route" alone could be true a moment too early
+		return seen && s.obs.countKind("Stream Management: answer") > answersBefore && !vfRouterBusy(s.c.router)
 	})
 }
 
